@@ -5,6 +5,8 @@ pub mod c01;
 pub mod c04;
 pub mod c05;
 pub mod c06;
+pub mod c07;
+pub mod c09;
 pub mod c10;
 pub mod c11;
 pub mod c14;
@@ -15,6 +17,8 @@ pub fn run(id: &str, eng: &Engine) {
         "C04" => c04::run(eng),
         "C05" => c05::run(eng),
         "C06" => c06::run(eng),
+        "C07" => c07::run(eng),
+        "C09" => c09::run(eng),
         "C10" => c10::run(eng),
         "C11" => c11::run(eng),
         "C14" => c14::run(eng),
@@ -31,6 +35,8 @@ pub fn replay(id: &str, eng: &Engine, stage: &str, case: &Value) -> CaseResult {
         "C04" => c04::replay(eng, stage, case),
         "C05" => c05::replay(eng, stage, case),
         "C06" => c06::replay(eng, stage, case),
+        "C07" => c07::replay(eng, stage, case),
+        "C09" => c09::replay(eng, stage, case),
         "C10" => c10::replay(eng, stage, case),
         "C11" => c11::replay(eng, stage, case),
         "C14" => c14::replay(eng, stage, case),
